@@ -50,6 +50,7 @@ def main(prop=PROP, doc=__doc__, goals=GOALS):
     chk.bounds.update(F.BOUNDS[t])
     chk.outside += F.OUTSIDE
     chk.stubs += F.STUBS
+    F.f16_witness(chk, known)
     chk.require_goals(goals)
     chk.assumptions += ["generated inputs are validated against nbformat's schema (invalid input = harness error)",
                         "open known findings excluded: %s" % ", ".join(kn)]
